@@ -160,6 +160,24 @@ func (fr *frame) get(key ssa.Value) value {
 		return constValue(key)
 	case *ssa.Global:
 		fr.i.touchPkg(key.Pkg)
+		if fr.i.uninit[key.Pkg] && key.Pkg.Pkg.Path() == "path/filepath" {
+			// the three variables filepath's (skipped) init sets that Walk needs
+			if r, ok := fr.i.globals[key]; ok {
+				return r
+			}
+			var cell value
+			switch key.Name() {
+			case "lstat":
+				cell = key.Pkg.Prog.ImportedPackage("os").Func("Lstat")
+			case "SkipDir", "SkipAll":
+				fsPkg := key.Pkg.Prog.ImportedPackage("io/fs")
+				cell = *(fr.get(fsPkg.Members[key.Name()].(*ssa.Global)).(*value))
+			}
+			if cell != nil {
+				fr.i.globals[key] = &cell
+				return &cell
+			}
+		}
 		if fr.i.uninit[key.Pkg] && !globalReadOK(key) {
 			panic(engineErr{"UNSUPPORTED read of global " + key.String() + ": its package's init is not run by the engine (add a stub or enable the init)"})
 		}
